@@ -122,6 +122,7 @@ func (d *MsgPipeline) Start(ctx context.Context, msgMeta *module.MsgMetadata, ma
 		d:                  d,
 		rcptModifiersState: make(map[*rcptBlock]module.ModifierState),
 		deliveries:         make(map[module.DeliveryTarget]*delivery),
+		originalRcpts:      make(map[string]string),
 		msgMeta:            msgMeta,
 		log:                target.DeliveryLogger(d.Log, msgMeta),
 	}
@@ -278,6 +279,11 @@ type msgpipelineDelivery struct {
 	msgMeta     *module.MsgMetadata
 	checkRunner *checkRunner
 
+	// Rewrites done by this pipeline (effective address -> address passed to
+	// AddRcpt). msgMeta.OriginalRcpts is shared with pipelines this one is
+	// nested in, so it can't be used to undo only what was done here.
+	originalRcpts map[string]string
+
 	// Set if BodyNonAtomic failed for all recipients before the message
 	// was passed to any target.
 	bodyFailed bool
@@ -353,6 +359,7 @@ func (dd *msgpipelineDelivery) AddRcpt(ctx context.Context, to string, opts smtp
 
 			if originalTo != to {
 				dd.msgMeta.OriginalRcpts[to] = originalTo
+				dd.originalRcpts[to] = originalTo
 			}
 
 			for _, tgt := range rcptBlock.targets {
@@ -517,7 +524,7 @@ func (dd *msgpipelineDelivery) BodyNonAtomic(ctx context.Context, c module.Statu
 		partDelivery, ok := delivery.Delivery.(module.PartialDelivery)
 		if ok {
 			partDelivery.BodyNonAtomic(ctx, statusCollector{
-				originalRcpts: dd.msgMeta.OriginalRcpts,
+				originalRcpts: dd.originalRcpts,
 				wrapped:       c,
 			}, header, body)
 			continue
